@@ -24,6 +24,11 @@
 //                                with 0xDD – is not written afterwards), then n1 | n0 (fcn ran exactly once) and
 //                                clean | dirty (lifetime log of the tracked type: assignment to / copy from /
 //                                destruction of storage that is not a live object).
+//   leave n                   (last line of a case) the workers are parked in closures that spin until a flag is set,
+//                             n more heap-owning closures and one async() are issued (the first to run sets the
+//                             flag) and the process exits normally while they are still queued or running: static
+//                             destructors of the tasking system run with work pending. Printed by the parent after
+//                             the child has gone: -> "exit=<status> ran-twice=<number of closures that ran twice>"
 // Every case runs in a fresh child process (the tasking system is process-wide and cannot be shut down);
 // a case that does not finish within CASE_TIMEOUT_S is killed and reported like a crash (exit code 124).
 // A sanitizer report aborts the child; the runner attributes it to the case.
@@ -37,6 +42,7 @@
 #include <new>
 #include <thread>
 #include <signal.h>
+#include <sys/mman.h>
 #include <sys/prctl.h>
 #include <sys/types.h>
 #include <sys/wait.h>
@@ -402,9 +408,49 @@ static std::string doDep(long n)
   return "done=" + std::to_string(n) + " child-not-picked-up=" + std::to_string(late);
 }
 
+// shared with the parent process (MAP_SHARED): execution counters of the closures left behind by `leave`
+struct LeaveShared {
+  std::atomic<int> go;
+  std::atomic<int> n;
+  std::atomic<int> counts[4096];
+};
+LeaveShared *g_leave = nullptr;
+
+std::string doLeave(long n)
+{
+  if (!g_leave || n < 1 || n > 4000)
+    return "bad-op";
+  LeaveShared *L = g_leave;
+  L->n = (int)n + 1;
+  const std::thread::id caller = std::this_thread::get_id();
+  long threads = g_lastInit > 0 ? g_lastInit : (long)std::thread::hardware_concurrency();
+  long blockers = std::max(1L, std::min(threads - 1, 32L));
+  for (long b = 0; b < blockers; ++b)
+    tasking::schedule([=]() {
+      if (std::this_thread::get_id() == caller)
+        return;   // a backend (or a one-thread scheduler) that runs closures inline: nothing to park
+      auto t0 = std::chrono::steady_clock::now();
+      while (!L->go.load() && std::chrono::steady_clock::now() - t0 < std::chrono::milliseconds(400))
+        std::this_thread::yield();
+    });
+  for (long i = 0; i < n; ++i) {
+    HeapState h = makeHeapState();
+    tasking::schedule([=]() {
+      L->go = 1;
+      if (h.ok())
+        L->counts[i].fetch_add(1);
+    });
+  }
+  auto fut = tasking::async([=]() { L->go = 1; L->counts[n].fetch_add(1); return 7; });
+  (void)fut;   // the future is dropped without get(): std::future of a packaged task does not block in its destructor
+  return "";
+}
+
 std::string step(const std::vector<std::string> &w)
 {
   const std::string &op = w[0];
+  if (op == "leave" && w.size() == 2)
+    return doLeave(vh::to_ll(w[1]));
   if (op == "init" && w.size() == 2) {
     tasking::initTaskingSystem((int)vh::to_ll(w[1]));
     g_lastInit = vh::to_ll(w[1]);
@@ -482,6 +528,17 @@ int runCase(const std::vector<std::string> &lines)
 {
   fflush(stdout);
   fflush(stderr);
+  const bool leaves = !lines.empty() && lines.back().compare(0, 6, "leave ") == 0;
+  if (!g_leave) {
+    void *m = mmap(nullptr, sizeof(LeaveShared), PROT_READ | PROT_WRITE, MAP_SHARED | MAP_ANONYMOUS, -1, 0);
+    if (m == MAP_FAILED)
+      return 3;
+    g_leave = new (m) LeaveShared;
+  }
+  g_leave->go = 0;
+  g_leave->n = 0;
+  for (auto &c : g_leave->counts)
+    c = 0;
   pid_t pid = fork();
   if (pid < 0)
     return 3;
@@ -494,6 +551,8 @@ int runCase(const std::vector<std::string> &lines)
       } catch (const std::exception &e) {
         out = std::string("uncaught:") + typeid(e).name();
       }
+      if (leaves && &l == &lines.back() && out.empty())
+        break;   // the parent prints this op's line once the process has exited
       vh::emit(out);
     }
     fflush(stdout);
@@ -518,9 +577,20 @@ int runCase(const std::vector<std::string> &lines)
     }
     usleep(waited_ms < 200 ? 500 : 5000);
   }
-  if (WIFEXITED(st))
-    return WEXITSTATUS(st);
-  return 128 + (WIFSIGNALED(st) ? WTERMSIG(st) : 0);
+  int rc = WIFEXITED(st) ? WEXITSTATUS(st) : 128 + (WIFSIGNALED(st) ? WTERMSIG(st) : 0);
+  if (leaves && g_leave->n.load() > 0) {
+    // the process that left work behind has gone (threads that were still running closures went with it)
+    int twice = 0;
+    for (int i = 0; i < g_leave->n.load(); ++i)
+      if (g_leave->counts[i].load() > 1)
+        ++twice;
+    if (rc != 0)
+      fprintf(stderr, "c02: the process that exited with scheduled work pending ended with status %d\n", rc);
+    vh::emit("exit=" + std::to_string(rc) + " ran-twice=" + std::to_string(twice));
+    fflush(stdout);
+    return 0;
+  }
+  return rc;
 }
 
 }  // namespace
